@@ -58,6 +58,7 @@ package forkexec
 //@   assume K.fdt[p[1]] != 0
 //@   assume #int forall k int :: 0 <= k && k < len(r.Files) ==> r.Files[k] != p[0]
 //@   assigns K.fdt, K.clo, K.pid, K.secbits, K.caps_empty, K.nnp, K.filter, K.filter_flags, K.uid, K.uid_set, K.gid, K.gid_set, K.groups_set, K.ngroups, K.groups_ptr, K.sid_new, K.ctty, K.cwd, K.host, K.hostlen, K.host_issued, K.domain, K.domainlen, K.domain_issued, K.clone_flags, K.clone3, K.clone_cgroup, K.mnt_src, K.mnt_type, K.mnt_flags, K.mnt_data, K.mnt_done, K.remount, K.remount_done, K.nmount, K.pivoted, K.pivot_new, K.pivot_old, K.old_detached, K.old_removed, K.rl_cur, K.rl_max, K.rl_set, K.traceme, K.stopped_self, K.sync_stage, K.sync_wfile, K.sync_rfile, K.idmap_read, K.unshare_cgroup_issued, K.last_trap, K.last_errno, K.reported, K.reported_loc, K.reported_err, K.reported_idx, K.exec_attempts
+//@   ensures #int err1 == 0 ==> r1 < 4194305
 //@   loop 0: invariant #int nextfd > len(fd) && nextfd + ite(pipe >= nextfd, 1, 0) <= 2147483651
 //@   loop 0: invariant #int forall k int :: 0 <= k && k < len(fd) ==> fd[k] < nextfd
 //@   loop 0: decreases #int ite(pipe >= nextfd, 1, 0)
@@ -184,3 +185,84 @@ package forkexec
 // Bit-level facts used by the int-mode proof of the mount loop (proved in bv mode, exported to int mode).
 //@ lemma bits_or_absorb arith bv export group mnt props C05: forall a uintptr, x uintptr :: (a | x) & a == a
 //@ lemma bits_remount_set arith bv export group mnt props C05: forall a uintptr, x uintptr :: ((a | 32) | x) & 32 != 0
+
+// ---- parent side of the launch (C07, C10, C12) ----
+
+//@ func pkg/forkexec.prepareExec props C10 C15
+//@   arith int
+//@   requires len(Args) >= 1
+//@   assigns nothing
+//@   ensures result.3 == nil ==> len(result.1) >= 1 && len(result.2) >= 1
+
+//@ func pkg/forkexec.syscallStringFromString
+//@   arith int
+//@   assigns nothing
+//@   ensures result.0 != nil ==> fresh(result.0)
+
+//@ func pkg/forkexec.readlen
+//@   arith int
+//@   overflow wrap
+//@   requires np >= 0
+//@   assigns object(p)
+//@   ensures err == nil ==> 0 <= n && n <= np
+
+//@ func pkg/forkexec.readChildErr props C07
+//@   arith int
+//@   requires childErr != nil
+//@   assigns object(childErr)
+//@   ensures err == nil ==> 0 <= n && n <= 24
+//@   loop 0: invariant true
+
+//@ func pkg/forkexec.handlePipeError props C07
+//@   arith int
+//@   assigns nothing
+//@   ensures r1 >= 8 ==> result == errno
+//@   ensures r1 >= 0 && r1 < 8 ==> int(result) == 32
+
+// kill, then wait4 until it returns anything but EINTR
+//@ func pkg/forkexec.handleChildFailed props C07 C12
+//@   arith int
+//@   assigns W.kill_pid, W.kill_count, W.reaped
+//@   ensures W.kill_pid == pid && W.kill_count == old(W.kill_count) + 1 && W.reaped[pid]
+//@   loop 0: invariant W.kill_pid == pid && W.kill_count == old(W.kill_count) + 1 && ((err == nil || err != iface(syscall.Errno(4))) ==> W.reaped[pid])
+
+//@ func pkg/forkexec.writeIDMaps
+//@   trusted "writes /proc/<pid>/{uid_map,setgroups,gid_map}; its errors are errno values of open/write/close"
+//@   pure
+//@   ensures result != nil ==> hastype(result, syscall.Errno)
+
+// After the clone: the callback runs only after a well-formed ready word from the child and before the
+// ack is written; on any failure the child is killed and reaped and both socket ends are closed
+// (or the read end is handed to the late-error goroutine, which closes it).
+//@ func pkg/forkexec.syncWithChild props C07 C10 C12
+//@   arith int
+//@   requires r != nil && p[0] != p[1] && (err1 == 0 ==> 0 <= pid && pid < 2147483648)
+//@   assigns P.st, S.cb_calls, W.kill_pid, W.kill_count, W.reaped, FD.closed, FD.handed, K.last_trap, K.last_errno, K.sync_stage, K.sync_wfile
+//@   ensures @C12 FD.closed[p[1]] && (FD.closed[p[0]] || FD.handed[p[0]])
+//@   ensures @C07 result.1 != nil && err1 == 0 ==> W.kill_pid == pid && W.reaped[pid] && W.kill_count == old(W.kill_count) + 1
+//@   ensures @C07 result.1 != nil ==> result.0 == 0
+//@   ensures @C07 result.1 == nil ==> (result.0 == pid && W.kill_count == old(W.kill_count)) || (result.0 == 0 && W.kill_pid == pid && W.reaped[pid])
+//@   ensures @C10 S.cb_calls == old(S.cb_calls) || S.cb_calls == old(S.cb_calls) + 1
+//@   ensures @C10 S.cb_calls == old(S.cb_calls) ==> P.st == old(P.st)
+//@   ensures @C10 S.cb_calls == old(S.cb_calls) + 1 && old(P.st) == 2 ==> (result.1 == nil ==> P.st == 5) && (result.1 != nil ==> P.st == 4 || P.st == 5 || P.st == 9)
+//@   ensures @C10 S.cb_calls == old(S.cb_calls) + 1 && old(P.st) != 2 ==> P.st == old(P.st)
+//@   callsite funcvalue:pkg/forkexec.Runner.SyncFunc: assert @C07 (n == 8 || n == 24) && childErr.Err == 0 && err == nil && cbpid == pid
+
+// the goroutine that picks up a late error of a ptraced child owns and closes the read end
+//@ func go:pkg/forkexec.syncWithChild$1
+//@   assumed "ownership of p[0] passes to the goroutine (it closes it after the read)"
+//@   assigns FD.handed
+//@   ensures FD.handed == old(FD.handed)[p[0] := true]
+
+//@ func pkg/forkexec.(*Runner).Start props C07 C10 C12
+//@   arith int
+//@   requires len(r.Args) >= 1
+//@   requires forall k int :: 0 <= k && k < len(r.Files) ==> r.Files[k] < 2147483648 || r.Files[k] == 18446744073709551615
+//@   requires r.ExecFile < 2147483648 && len(r.Files) < 1048576
+//@   requires forall j int, k int :: 0 <= j && j < k && k < len(r.Mounts) ==> r.Mounts[j].Target != r.Mounts[k].Target
+//@   requires forall k int :: 0 <= k && k < len(r.Mounts) ==> r.Mounts[k].Target != nil && r.Mounts[k].Flags & 32 == 0 && r.Mounts[k].Target != elemaddr(slash, 0)
+//@   ensures @C07 result.1 != nil ==> result.0 == 0
+//@   ensures @C10 S.cb_calls == old(S.cb_calls) || S.cb_calls == old(S.cb_calls) + 1
+//@   ensures @C10 S.cb_calls == old(S.cb_calls) ==> P.st == old(P.st)
+//@   ensures @C10 S.cb_calls == old(S.cb_calls) + 1 && old(P.st) == 2 ==> (result.1 == nil ==> P.st == 5) && (result.1 != nil ==> P.st == 4 || P.st == 5 || P.st == 9)
+//@   ensures @C10 S.cb_calls == old(S.cb_calls) + 1 && old(P.st) != 2 ==> P.st == old(P.st)
